@@ -605,6 +605,60 @@ fn load_balancer(r: &mut Report, seed: u64, case: u64) {
     }
 }
 
+/// Random mode at the edges of the generator's range: the generator is put into a state from which its next output
+/// is a chosen value (with the library's own modulus, multiplier and increment), for every target count; the
+/// selection must be one of the configured targets and must not panic.
+fn lcg_boundaries(r: &mut Report) {
+    use humphrey_server::server::rand::Choose;
+    const M: u128 = (1u128 << 31) - 1; // prime
+    const A: u128 = 1103515245;
+    const C: u128 = 12345;
+    fn pow_mod(mut b: u128, mut e: u128, m: u128) -> u128 {
+        let mut acc = 1u128;
+        b %= m;
+        while e > 0 {
+            if e & 1 == 1 {
+                acc = acc * b % m;
+            }
+            b = b * b % m;
+            e >>= 1;
+        }
+        acc
+    }
+    let inv_a = pow_mod(A, M - 2, M);
+    let mut values: Vec<u128> = vec![0, 1, 2, 3, 4, 5, (1 << 24) - 1, 1 << 24, (1 << 24) + 1, (1 << 30) - 1, 1 << 30, (1 << 30) + 1];
+    for k in 1..=130u128 {
+        values.push(M - k); // the largest outputs the generator can produce
+    }
+    for nt in 1..=4usize {
+        let targets: Vec<String> = (0..nt).map(|i| format!("10.0.0.{}:80", i + 1)).collect();
+        for v in &values {
+            // seed such that (A * seed + C) mod M == v
+            let seed = ((v + M - C % M) % M) * inv_a % M;
+            r.eval();
+            r.count("lcg_boundary_states", 1);
+            let ex = J::obj(vec![("targets", J::u(nt as u64)), ("next_generator_output", J::u(*v as u64)), ("generator_state", J::u(seed as u64))]);
+            let mut lb = LoadBalancer { targets: targets.clone(), mode: LoadBalancerMode::Random, index: 0, lcg: Lcg::with_parameters(M as usize, A as usize, C as usize, seed as usize) };
+            match catch_unwind(AssertUnwindSafe(|| (0..3).map(|_| lb.select_target()).collect::<Vec<String>>())) {
+                Ok(sel) => {
+                    if sel.iter().any(|t| !targets.contains(t)) {
+                        r.violation("C09/target-outside-configured-set", format!("select_target returned {:?} with {} targets configured", sel, nt), ex, vec![]);
+                    }
+                }
+                Err(p) => r.violation("C09/select-target-panic", format!("select_target panicked in random mode when the generator's next output is {} ({} targets): {}", v, nt, panic_msg(&*p)), ex, vec![]),
+            }
+            // the sampling primitive itself, with a generator that returns exactly v
+            let mut g = Lcg::with_parameters(M as usize, 1, 0, *v as usize);
+            match catch_unwind(AssertUnwindSafe(|| targets[..].choose(&mut g).cloned())) {
+                Ok(Some(t)) if targets.contains(&t) => {}
+                Ok(other) => r.violation("C09/target-outside-configured-set", format!("choose returned {:?} from {} targets for generator output {}", other, nt, v), J::Null, vec![]),
+                Err(p) => r.violation("C09/select-target-panic", format!("choose panicked for generator output {}: {}", v, panic_msg(&*p)), J::Null, vec![]),
+            }
+        }
+    }
+    r.nontrivial(0x1c9b);
+}
+
 pub fn main(args: &Args) {
     let out = args.get("out").expect("--out");
     let seed = args.seed();
@@ -657,6 +711,9 @@ pub fn main(args: &Args) {
         }
         for c in (0..n_lb).filter(|c| mine(*c)) {
             load_balancer(&mut r, seed, c);
+        }
+        if shard == 0 {
+            lcg_boundaries(&mut r);
         }
         if shard == 0 {
             r.sample(J::obj(vec![("kind", J::s("cut response")), ("example", J::s("HTTP/1.1 200 OK\\r\\nTransfer-Encoding: chunked\\r\\n\\r\\n5\\r\\nhel<FIN>")), ("expected", J::s("502"))]));
